@@ -6,6 +6,7 @@ import (
 	"bytes"
 	"errors"
 	"fmt"
+	oabi "github.com/google/gce-tcb-verifier/ovmf/abi"
 	"io"
 	"time"
 
@@ -203,32 +204,70 @@ type streamable interface {
 	Marshal(io.Writer) error
 }
 
+// c18HobBoundary: an SP800-155 event is destined to be the data of an EFI GUID HOB, whose length
+// field has 16 bits: around that boundary the encoder either refuses the event or emits something
+// the HOB builder accepts.
+func c18HobBoundary(r *core.Run) {
+	ev := genSP(r)
+	ev.RIMLocator.Data = nil
+	base, err := ev.MarshalToBytes()
+	if err != nil {
+		return
+	}
+	delta := r.Intn(24, "hob-delta") - 12
+	n := oabi.MaxGUIDHOBDataSize + delta - len(base)
+	if n < 0 {
+		return
+	}
+	ev.RIMLocator.Data = bytes.Repeat([]byte{0x5a}, n)
+	out, err := ev.MarshalToBytes()
+	outcome := "refused"
+	if err == nil {
+		outcome = "encoded"
+		if _, herr := oabi.CreateEFIHOBGUID(uuid.UUID{1}, out); herr != nil {
+			r.Fail("truncation-accepted", "SP800155Event3/hob-boundary", "SP800155Event3: an event of %d bytes was encoded although it does not fit the GUID HOB it is emitted in: %v", len(out), herr)
+		}
+		var back eventlog.SP800155Event3
+		if uerr := back.UnmarshalFromBytes(out[16:]); uerr != nil { // after the 16-byte event signature
+			r.Fail("chunking-changes-result", "SP800155Event3/hob-boundary", "SP800155Event3: a %d-byte event does not decode: %v", len(out), uerr)
+		}
+	} else if delta <= 0 {
+		r.Fail("chunking-changes-result", "SP800155Event3/hob-boundary-refused", "SP800155Event3: an event of %d bytes, which fits a GUID HOB, is refused: %v", len(base)+n, err)
+	}
+	r.Eval(fmt.Sprintf("SP800155Event3|hob-boundary|delta=%d|%s", delta, outcome), true)
+	r.Probe("hob-boundary")
+}
+
 func runC18(r *core.Run) {
 	strLens = nil
 	defer func() { strLens = nil }()
+	if r.Chance(6, "hob-boundary?") {
+		c18HobBoundary(r)
+		strLens = nil
+	}
 	// the value under test and a factory for empty values of its type
 	var v streamable
-	var fresh func() streamable
+	var fresh, gen func() streamable
 	name := ""
 	switch r.Intn(8, "codec") {
 	case 0, 1, 2:
-		name, v, fresh = "CryptoAgileLog", genLog(r), func() streamable { return &eventlog.CryptoAgileLog{} }
+		name, gen, fresh = "CryptoAgileLog", func() streamable { return genLog(r) }, func() streamable { return &eventlog.CryptoAgileLog{} }
 	case 3:
-		name, v, fresh = "TCGPCREvent2", genEvent2(r), func() streamable { return &eventlog.TCGPCREvent2{} }
+		name, gen, fresh = "TCGPCREvent2", func() streamable { return genEvent2(r) }, func() streamable { return &eventlog.TCGPCREvent2{} }
 	case 4:
-		ed := genEventData(r)
-		name, v, fresh = "TCGEventData", &ed, func() streamable { return &eventlog.TCGEventData{} }
+		name, gen, fresh = "TCGEventData", func() streamable { ed := genEventData(r); return &ed }, func() streamable { return &eventlog.TCGEventData{} }
 	case 5:
-		name, v, fresh = "TaggedDigest", genDigest(r), func() streamable { return &eventlog.TaggedDigest{} }
+		name, gen, fresh = "TaggedDigest", func() streamable { return genDigest(r) }, func() streamable { return &eventlog.TaggedDigest{} }
 	case 6:
 		if r.Bool("cstr") {
-			name, v, fresh = "ByteSizedCStr", &eventlog.ByteSizedCStr{Data: genStr(r, "s")}, func() streamable { return &eventlog.ByteSizedCStr{} }
+			name, gen, fresh = "ByteSizedCStr", func() streamable { return &eventlog.ByteSizedCStr{Data: genStr(r, "s")} }, func() streamable { return &eventlog.ByteSizedCStr{} }
 		} else {
-			name, v, fresh = "Uint32SizedArray", &eventlog.Uint32SizedArray{Data: genBytes(r, 60, "arr")}, func() streamable { return &eventlog.Uint32SizedArray{} }
+			name, gen, fresh = "Uint32SizedArray", func() streamable { return &eventlog.Uint32SizedArray{Data: genBytes(r, 60, "arr")} }, func() streamable { return &eventlog.Uint32SizedArray{} }
 		}
 	default:
-		name, v, fresh = "EfiGUID", &eventlog.EfiGUID{UUID: uuid.UUID{9, 8, 7, byte(r.Intn(256, "g"))}}, func() streamable { return &eventlog.EfiGUID{} }
+		name, gen, fresh = "EfiGUID", func() streamable { return &eventlog.EfiGUID{UUID: uuid.UUID{9, 8, 7, byte(r.Intn(256, "g"))}} }, func() streamable { return &eventlog.EfiGUID{} }
 	}
+	v = gen()
 	outOfRange, longest := false, 0
 	for _, n := range strLens {
 		if n > 254 {
@@ -266,6 +305,25 @@ func runC18(r *core.Run) {
 	}
 	if back, err := enc(base); err != nil || !bytes.Equal(back, full) {
 		r.Fail("truncation-accepted", name+"/roundtrip", "%s: decode(encode(v)) does not re-encode to encode(v) (%v)", name, err)
+	}
+	// a long-lived destination: decoding into a value that already holds another decoded record
+	// gives what decoding into a fresh one gives
+	if r.Chance(50, "reused-destination?") {
+		save := strLens
+		prior := gen()
+		strLens = save
+		if pb, perr := enc(prior); perr == nil {
+			dst := fresh()
+			if err := dst.Unmarshal(bytes.NewReader(pb)); err == nil {
+				err := dst.Unmarshal(bytes.NewReader(full))
+				back, eerr := enc(dst)
+				r.Eval(name+"|reused-destination", true)
+				if err != nil || eerr != nil || !bytes.Equal(back, full) {
+					r.Fail("chunking-changes-result", name+"/reused-destination", "%s: decoding into a destination that held another record (%d bytes) gives another value than decoding into a fresh one (%v, %v)", name, len(pb), err, eerr)
+				}
+				r.Probe("reused-destination")
+			}
+		}
 	}
 	posClass := func(n int) string {
 		switch {
